@@ -191,12 +191,22 @@ def single_defs(fn):
             cnt[t] = cnt.get(t, 0) + 1
             val[t] = n.value
             continue
-        for x in ast.walk(n) if isinstance(n, (
-                ast.Assign, ast.AugAssign, ast.AnnAssign, ast.For, ast.With,
-                ast.Delete, ast.Import, ast.ImportFrom)) else ():
-            if isinstance(x, ast.Name) and isinstance(
-                    x.ctx, (ast.Store, ast.Del)):
-                cnt[x.id] = cnt.get(x.id, 0) + 2
+        roots = []
+        if isinstance(n, (ast.Assign, ast.AugAssign, ast.AnnAssign,
+                          ast.Delete)):
+            roots = [n]
+        elif isinstance(n, ast.For):
+            roots = [n.target]
+        elif isinstance(n, ast.With):
+            roots = [i.optional_vars for i in n.items if i.optional_vars]
+        elif isinstance(n, (ast.Import, ast.ImportFrom)):
+            for a in n.names:
+                cnt[(a.asname or a.name).split('.')[0]] = 2
+        for r in roots:
+            for x in ast.walk(r):
+                if isinstance(x, ast.Name) and isinstance(
+                        x.ctx, (ast.Store, ast.Del)):
+                    cnt[x.id] = cnt.get(x.id, 0) + 2
         if isinstance(n, ast.ExceptHandler) and n.name:
             cnt[n.name] = 2
         if isinstance(n, ast.NamedExpr):
